@@ -543,12 +543,19 @@ class _HandleRequest(Contract):
         """clauses that hold on EVERY exit (normal or exceptional)"""
         st1, st0 = c.st, c.old
         o1, o0 = st1.obj(c.a["self"]), st0.obj(c.a["self"])
-        log1, log0 = st1.obj(c.g["log"]), st0.obj(c.g["log"])
-        app1 = st1.obj(c.g["app"])
+        log1, log0 = st1.obj(o1.fields["log"]), st0.obj(o0.fields["log"])
+        app1 = st1.obj(o1.fields["wsgi"])
         d = log1.fields["g_access"].t - log0.fields["g_access"].t
         returned = c.ex.truth(app1.fields["g_returned"], st1)
         resp = st1.ghost.get("resp")
-        out = [("exactly-one-access-record-iff-the-application-call-returned", d == If(returned, iv(1), iv(0)))]
+        app0 = st0.obj(o0.fields["wsgi"])
+        dc = app1.fields["g_calls"].t - app0.fields["g_calls"].t
+        cl1, cl0 = st1.obj(self.client(c)), st0.obj(self.client(c))
+        out = [("exactly-one-access-record-iff-the-application-call-returned", d == If(returned, iv(1), iv(0))),
+               ("application-called-at-most-once", And(dc >= 0, dc <= 1, Implies(returned, dc == 1))),
+               ("no-error-page-written-by-handle_request", cl1.fields.get("g_errors", SInt(0)).t == cl0.fields.get("g_errors", SInt(0)).t)]
+        if resp is None and c.mode == "call":
+            return out
         if resp is not None:
             ro = st1.obj(resp)
             ls, lst = log1.fields.get("g_last_sent"), log1.fields.get("g_last_status")
@@ -699,3 +706,263 @@ class AsyncHandleRequest(_HandleRequest):
         if resp is not None:
             out.append(("returns-normally-only-if-keep-alive-is-safe", Not(spec_should_close(c, c.st, resp))))
         return out
+
+
+# ======================================================================================================
+# handle (per connection): parser model, contracts for sync / gthread / base_async
+# ======================================================================================================
+def parser_exceptions(env):
+    E = http_errs(env)
+    import ssl
+    names = ["NoMoreData", "InvalidRequestLine", "InvalidRequestMethod", "InvalidHTTPVersion", "InvalidHeader", "InvalidHeaderName",
+             "LimitRequestLine", "LimitRequestHeaders", "InvalidProxyLine", "ForbiddenProxyRequest", "InvalidSchemeHeaders",
+             "UnsupportedTransferCoding", "ObsoleteFolding", "InvalidChunkSize", "ChunkMissingTerminator"]
+    return [getattr(E, n) for n in names] + [StopIteration]       # TLS (ssl.SSLError) is not modelled: is_ssl is False by precondition
+
+
+class ParserModel(ClassModel):
+    """http.RequestParser as seen by the handlers (its own contracts are C01/C06/C07): next() yields the next request of the
+    connection or raises one of the parser's exceptions / StopIteration / OSError. PROXY information is only ever attached
+    to the FIRST request of a connection (Request.proxy_protocol contract)."""
+
+    def call(self, ex, st, self_v, meth, args, kwargs, node):
+        if meth != "__next__":
+            return None
+        o = st.obj(self_v)
+        out = []
+        for ecls in parser_exceptions(ex.env):
+            s2 = st.fork()
+            fields = {"errno": SInt(fresh_int("errno"))} if issubclass(ecls, OSError) else {}
+            if ecls.__name__ == "SSLError":
+                fields["args"] = STuple([SInt(fresh_int("sslerr"))])
+            out.append(ex.res_exc(s2, SExc(ecls, fields.get("args", STuple([])).items if "args" in fields else (), fields)))
+        s3 = st.fork()
+        out.append(ex.res_exc(s3, oserr()))
+        n = o.fields["g_count"].t + 1
+        o.fields["g_count"] = SInt(n)
+        req = mk_reqobj(ex.env, st)
+        first = const_int(n) == 1 if const_int(n) is not None else None
+        if first is True or first is None:
+            info = SOpt(fresh_bool("ppi.some"), _mk_info(st))
+            if first is None:
+                st.assume(Implies(info.some, n == 1))
+            st.obj(req).fields["proxy_protocol_info"] = info
+            if "conn_ppi" not in st.ghost or first is True:
+                st.ghost["conn_ppi"] = info
+        st.obj(req).fields["g_number"] = SInt(n)
+        out.append(ex.res(st, req))
+        return out
+
+
+def _mk_info(st):
+    return st.alloc(HDict({"proxy_protocol": SStr.lit("TCP4"), "client_addr": strops.fresh_str(st, "ppi.caddr", True),
+                           "client_port": SInt(fresh_int("ppi.cport")), "proxy_addr": strops.fresh_str(st, "ppi.paddr", True),
+                           "proxy_port": SInt(fresh_int("ppi.pport"))}))
+
+
+PARSER = ParserModel()
+
+
+def mk_parser(env, st):
+    env.class_models["ParserModel"] = PARSER
+    return st.alloc(HObj("ParserModel", {"g_count": SInt(0)}))
+
+
+def _ctor_request_parser(ex, st, self_v, args, kwargs, node):
+    return R1(ex, st, mk_parser(ex.env, st))
+
+
+STUBS["ctor:RequestParser"] = _ctor_request_parser
+
+
+def _handle_request_callmode(cls):
+    """call-mode pieces shared by the three handle_request contracts"""
+    def modifies(self, c):
+        s = c.a["self"]
+        cl = self.client(c)
+        log = c.st.obj(s).fields["log"]
+        app = c.st.obj(s).fields["wsgi"]
+        return [("field", s, "nr"), ("field", s, "alive", BoolShape()), ("field", log, "g_access"),
+                ("field", cl, "g_wire", AnyStrShape(False)), ("field", cl, "g_wl"), ("field", cl, "g_closed", BoolShape()),
+                ("field", cl, "g_shutdown", BoolShape()), ("field", cl, "g_broken", BoolShape()),
+                ("field", app, "g_calls"), ("field", app, "g_returned", BoolShape())]
+    cls.modifies = modifies
+    orig_pre = cls.pre
+
+    def pre(self, c):
+        out = list(orig_pre(self, c))
+        if c.mode == "call":
+            g = c.st.ghost
+            req = c.st.obj(c.a["req"])
+            info = req.fields.get("proxy_protocol_info", NONE)
+            if "conn_ppi" in g:
+                conn = g["conn_ppi"]
+                ct = c.ex.truth(conn, c.st)
+                same = _same_info(c.ex, c.st, info, conn)
+                out.append(("PROXY-declared-client-address-applies-to-every-request-of-the-connection",
+                            If(ct, same, Not(c.ex.truth(info, c.st)))))
+        return out
+    cls.pre = pre
+
+
+for _cls in (SyncHandleRequest, ThreadHandleRequest, AsyncHandleRequest):
+    _handle_request_callmode(_cls)
+
+
+def _opt_parts(v):
+    if isinstance(v, SOpt):
+        return v.some, v.inner
+    if isinstance(v, SNone):
+        return FALSE, None
+    return TRUE, v
+
+
+def _same_info(ex, st, a, b):
+    sa, ia = _opt_parts(a)
+    sb, ib = _opt_parts(b)
+    if ia is None or ib is None:
+        return And(Not(sa), Not(sb)) if (ia is None and ib is None) else (Not(sb) if ia is None else Not(sa))
+    same_obj = TRUE if (isinstance(ia, Ref) and isinstance(ib, Ref) and ia.oid == ib.oid) else FALSE
+    return And(sa == sb, Implies(sa, same_obj))
+
+
+def _hr_call_post(c, self_obj_old, self_obj_new, log0, log1, app0, app1):
+    return []
+
+
+class _Handle(Contract):
+    """C05: whatever the parser / application / socket does, nothing escapes the per-connection handler (except what is
+    declared), the connection is closed (or handed back for keep-alive), at most one error page is written and only when
+    nothing of a normal response was sent."""
+    weight = 2
+
+    def raises(self, c):
+        return []
+
+    def base_post(self, c, client):
+        s1, s0 = c.st.obj(client), c.old.obj(client)
+        e1 = s1.fields.get("g_errors", SInt(0)).t
+        e0 = s0.fields.get("g_errors", SInt(0)).t
+        app1 = c.st.obj(c.st.obj(c.a["self"]).fields["wsgi"])
+        app0 = c.old.obj(c.old.obj(c.a["self"]).fields["wsgi"])
+        return [("at-most-one-error-page", And(e1 - e0 >= 0, e1 - e0 <= 1)),
+                ("application-called-at-most-once-per-parsed-request", app1.fields["g_calls"].t - app0.fields["g_calls"].t >= 0)]
+
+
+@contract("gunicorn.workers.sync:SyncWorker.handle", props=("C05",))
+class SyncHandle(_Handle):
+    def cases(self, env):
+        st = W.base_state(env)
+        app = mk_app(env, st)
+        slf, log = mk_worker(env, st, "SyncWorker", "gunicorn.workers.sync", wsgi=app)
+        client = mk_sock(env, st, "client")
+        st.obj(client).fields["g_errors"] = SInt(0)
+        return [("conn", st, {"self": slf, "listener": mk_sock(env, st, "listener"), "client": client,
+                              "addr": STuple([strops.fresh_str(st, "addr.host", True), SInt(fresh_int("addr.port"))])},
+                 {"app": app, "log": log})]
+
+    def pre(self, c):
+        cfg = c.st.obj(c.a["self"]).fields["cfg"]
+        return [("TLS-wrapping-not-modelled", Not(c.ex.truth(c.field(cfg, "is_ssl"), c.st)))]
+
+    def post(self, c):
+        return self.base_post(c, c.a["client"]) + [("connection-closed", c.ex.truth(c.st.obj(c.a["client"]).fields["g_closed"], c.st))]
+
+
+@contract("gunicorn.workers.gthread:ThreadWorker.handle", props=("C05", "C08"))
+class ThreadHandle(_Handle):
+    def cases(self, env):
+        out = []
+        for first in (True, False):
+            st = W.base_state(env)
+            app = mk_app(env, st)
+            keep = st.alloc(HList(sym=ListShape(IntShape()).fresh_seq(st, "_keep", view=False)))
+            slf, log = mk_worker(env, st, "ThreadWorker", "gunicorn.workers.gthread", wsgi=app, _keep=keep,
+                                 max_keepalived=SInt(z3.Int("self.max_keepalived")))
+            env.use_class("gunicorn.workers.gthread", "TConn")
+            client = mk_sock(env, st, "client")
+            st.obj(client).fields["g_errors"] = SInt(0)
+            parser = mk_parser(env, st)
+            fields = {"sock": client, "client": STuple([strops.fresh_str(st, "addr.host", True), SInt(fresh_int("addr.port"))]),
+                      "server": Opaque("server"), "parser": parser, "proxy_protocol_info": st.alloc(HDict({}))}
+            if not first:
+                # a later request on a kept-alive connection whose first request carried PROXY information
+                k = z3.Int("parser.count")
+                st.assume(k >= 1)
+                st.obj(parser).fields["g_count"] = SInt(k)
+                info = _mk_info(st)
+                st.ghost["conn_ppi"] = info
+                fields["proxy_protocol_info"] = info
+            conn = st.alloc(HObj("TConn", fields))
+            out.append(("first-request=%s" % first, st, {"self": slf, "conn": conn}, {"app": app, "log": log}))
+        return out
+
+    def raises(self, c):
+        return [(AppBaseError, None)]      # gthread only catches Exception: a BaseException raised by the application reaches the future
+
+    def result_shape(self, c):
+        return TupleShape([BoolShape(), ConstShape(c.a["conn"])])
+
+    def post(self, c):
+        res = c.result
+        ok = isinstance(res, STuple) and len(res.items) == 2 and isinstance(res.items[1], Ref) and res.items[1].oid == c.a["conn"].oid
+        client = c.st.obj(c.a["conn"]).fields["sock"]
+        return self.base_post(c, client) + [("returns-(keepalive, conn)", TRUE if ok else FALSE)]
+
+
+class TimeoutCtxModel(ClassModel):
+    pass
+
+
+def _timeout_ctx(kind, ex, st, cmv, outcome):
+    if isinstance(cmv, Ref) and isinstance(st.obj(cmv), HObj) and st.obj(cmv).cls == "TimeoutCtx":
+        if kind == "enter":
+            return [ex.res(st, NONE)]
+        return [(st, outcome)]
+    return None
+
+
+@contract("gunicorn.workers.base_async:AsyncWorker.timeout_ctx", props=("C05",))
+class TimeoutCtx(Contract):
+    """abstract in base_async (gevent / eventlet supply a keep-alive timeout context): modelled as a no-op context"""
+    trusted = True
+
+    def result_shape(self, c):
+        c.ex.env.ctx_models["timeout"] = _timeout_ctx
+        return c.st.alloc(HObj("TimeoutCtx", {}))
+
+
+@contract("gunicorn.workers.base_async:AsyncWorker.handle", props=("C05", "C08"))
+class AsyncHandle(_Handle):
+    def cases(self, env):
+        st = W.base_state(env)
+        app = mk_app(env, st)
+        slf, log = mk_worker(env, st, "AsyncWorker", "gunicorn.workers.base_async", wsgi=app)
+        client = mk_sock(env, st, "client")
+        st.obj(client).fields["g_errors"] = SInt(0)
+        return [("conn", st, {"self": slf, "listener": mk_sock(env, st, "listener"), "client": client,
+                              "addr": STuple([strops.fresh_str(st, "addr.host", True), SInt(fresh_int("addr.port"))])},
+                 {"app": app, "log": log})]
+
+    def post(self, c):
+        return self.base_post(c, c.a["client"]) + [("connection-closed", c.ex.truth(c.st.obj(c.a["client"]).fields["g_closed"], c.st))]
+
+    loops = {0: dict(anchor="while True", cands=[
+        ("carry-over:local-info-is-the-connection's-PROXY-info", lambda L: _carry_inv(L)),
+        ("errors-unchanged", lambda L: L.st.obj(L.client).fields["g_errors"].t == L.entry.obj(L.client).fields["g_errors"].t),
+        ("calls-monotone", lambda L: L.st.obj(L.st.obj(L.self).fields["wsgi"]).fields["g_calls"].t >= L.entry.obj(L.entry.obj(L.self).fields["wsgi"]).fields["g_calls"].t),
+        ("parser-count>=0", lambda L: L.st.obj(L.parser).fields["g_count"].t >= 0),
+    ])}
+
+
+def _carry_inv(L):
+    g = L.st.ghost
+    cnt = L.st.obj(L.parser).fields["g_count"].t
+    local = L.proxy_protocol_info
+    if "conn_ppi" not in g:
+        return And(cnt == 0, Not(L.ex.truth(local, L.st)))
+    conn = g["conn_ppi"]
+    ct = L.ex.truth(conn, L.st)
+    inner = conn.inner if isinstance(conn, SOpt) else conn
+    return If(cnt == 0, Not(L.ex.truth(local, L.st)),
+              If(ct, L.ex.identical(local, inner, L.st), Not(L.ex.truth(local, L.st))))
